@@ -303,4 +303,75 @@ theorem fold_decodable_exact (cfg : AddrCfg) (g a : Str) (hg : lowerAsciiStr g =
   · left
     rw [← hmap]; exact (map_lower_id a hu).symm
 
+theorem lower_upper_of_not_upper (c : Nat) (h : isUpperC c = false) : lowerC (upperC c) = c := by
+  unfold upperC
+  by_cases hl : isLowerC c = true
+  · simp only [hl, ↓reduceIte]
+    simp only [isLowerC, Bool.and_eq_true, decide_eq_true_eq] at hl
+    have hu : isUpperC (c - 32) = true := by simp [isUpperC]; omega
+    simp only [lowerC, hu, ↓reduceIte]; omega
+  · simp only [hl, Bool.false_eq_true, ↓reduceIte]; exact lowerC_of_not_upper c h
+
+theorem isSpaceC_upper (c : Nat) : isSpaceC (upperC c) = isSpaceC c := by
+  unfold upperC
+  by_cases hl : isLowerC c = true
+  · simp only [hl, ↓reduceIte]
+    simp only [isLowerC, Bool.and_eq_true, decide_eq_true_eq] at hl
+    have h1 : isSpaceC (c - 32) = false := by
+      simp only [isSpaceC, Bool.or_eq_false_iff, beq_eq_false_iff_ne, Bool.and_eq_false_iff, decide_eq_false_iff_not]
+      omega
+    have h2 : isSpaceC c = false := by
+      simp only [isSpaceC, Bool.or_eq_false_iff, beq_eq_false_iff_ne, Bool.and_eq_false_iff, decide_eq_false_iff_not]
+      omega
+    rw [h1, h2]
+  · simp [hl]
+
+theorem printable_upper (c : Nat) : (decide (33 ≤ upperC c) && decide (upperC c ≤ 126)) = (decide (33 ≤ c) && decide (c ≤ 126)) := by
+  unfold upperC
+  by_cases hl : isLowerC c = true
+  · simp only [hl, ↓reduceIte]
+    simp only [isLowerC, Bool.and_eq_true, decide_eq_true_eq] at hl
+    have a : (decide (33 ≤ c - 32) && decide (c - 32 ≤ 126)) = true := by simp; omega
+    have b : (decide (33 ≤ c) && decide (c ≤ 126)) = true := by simp; omega
+    rw [a, b]
+  · simp [hl]
+
+theorem not_lower_upper (c : Nat) : isLowerC (upperC c) = false := by
+  unfold upperC
+  by_cases hl : isLowerC c = true
+  · simp only [hl, ↓reduceIte]
+    simp only [isLowerC, Bool.and_eq_true, decide_eq_true_eq] at hl
+    simp only [isLowerC, Bool.and_eq_false_iff, decide_eq_false_iff_not]; omega
+  · simpa [hl] using hl
+
+theorem lowerAscii_no_upper (g : Str) (h : lowerAsciiStr g = true) : g.any isUpperC = false := by
+  induction g with
+  | nil => rfl
+  | cons c cs ih =>
+    simp only [lowerAsciiStr, List.all_cons, Bool.and_eq_true, decide_eq_true_eq, Bool.not_eq_true'] at h
+    simp [List.any_cons, h.1.2, ih (by simpa [lowerAsciiStr] using h.2)]
+
+theorem map_lower_upper (g : Str) (h : g.any isUpperC = false) : (g.map upperC).map lowerC = g := by
+  induction g with
+  | nil => rfl
+  | cons c cs ih =>
+    simp only [List.any_cons, Bool.or_eq_false_iff] at h
+    simp [List.map_cons, lower_upper_of_not_upper c h.1, ih h.2]
+
+/-- the upper-case spelling of a lower-case bech32 string decodes to the same address -/
+theorem accAddress_upper (cfg : AddrCfg) (g : Str) (hg : lowerAsciiStr g = true) :
+    accAddress cfg (g.map upperC) = accAddress cfg g := by
+  have hnu := lowerAscii_no_upper g hg
+  have hsp : (g.map upperC).all isSpaceC = g.all isSpaceC := by
+    simp [List.all_map, Function.comp_def, isSpaceC_upper]
+  have hfront : bechFrontOk (g.map upperC) = bechFrontOk g := by
+    have h1 : (g.map upperC).all (fun c => decide (33 ≤ c) && decide (c ≤ 126)) = g.all (fun c => decide (33 ≤ c) && decide (c ≤ 126)) := by
+      simp [List.all_map, Function.comp_def, printable_upper]
+    have h2 : (g.map upperC).any isLowerC = false := by
+      simp [List.any_map, Function.comp_def, not_lower_upper]
+    simp only [bechFrontOk, List.length_map, h1, h2, hnu, Bool.false_and, Bool.and_false]
+  have hdec : bechDecode (g.map upperC) = bechDecode g := by
+    simp only [bechDecode, hfront, map_lower_upper g hnu, map_lower_id g hnu]
+  simp only [accAddress, hsp, hdec]
+
 end FxVerif.Model.C16
